@@ -1788,7 +1788,11 @@ impl<'de, R: Read<'de>> de::SeqAccess<'de> for DescribedAccess<'_, R> {
                 // list headers
                 if self.counter == 0 {
                     if let StructEncoding::DescribedList = self.de.struct_encoding {
-                        self.field_count += self.consume_list_header()?;
+                        // The count comes from the wire: do not let it overflow
+                        self.field_count = self
+                            .field_count
+                            .checked_add(self.consume_list_header()?)
+                            .ok_or(Error::InvalidLength)?;
                     }
                 }
                 result
@@ -1828,7 +1832,11 @@ impl<'de, R: Read<'de>> de::MapAccess<'de> for DescribedAccess<'_, R> {
                 let result = seed.deserialize(self.as_mut()).map(Some);
                 if self.counter == 0 {
                     if let StructEncoding::DescribedMap = self.de.struct_encoding {
-                        self.field_count += self.consume_map_header()?;
+                        // The count comes from the wire: do not let it overflow
+                        self.field_count = self
+                            .field_count
+                            .checked_add(self.consume_map_header()?)
+                            .ok_or(Error::InvalidLength)?;
                     }
                 }
                 result
